@@ -1,4 +1,5 @@
 import OptiModel.Proofs.Effects
+import OptiModel.Proofs.EffectsBatch
 import OptiModel.Proofs.NumReal
 import Mathlib.Tactic.Ring
 import Mathlib.Tactic.Linarith
@@ -444,5 +445,508 @@ example (Hx Hy w : α) (pts : List (α × α)) (q : Query) (p : α) :
     noArrPupil (Call.trace Hx Hy w pts) = true ∧ noArrPupil (Call.query q : Call α) = true ∧
     noArrPupil (Call.traceGeneric (.arr 0) (.arr 1) (.scalar p) (.fresh [p, p]) w) = true :=
   ⟨rfl, rfl, rfl⟩
+
+/-! ## F. round 7: per-ray root selection, regrouping of a batch, interleavings with edits -/
+
+open scoped Num
+
+/-! ### F.a  `StandardGeometry.distance`: the degenerate branch is taken ray by ray -/
+
+/-- **std_distance_selects_per_ray**: for every batch, `StandardGeometry.distance` gives each ray
+the linear root `-c/b` exactly when *its own* `a` is zero, and the selected quadratic root
+otherwise – whatever the other rays of the batch are (every carrier, hence bit for bit over
+`Float`; a variant "if any ray has `a == 0` take the linear root for all" does not satisfy this). -/
+theorem std_distance_selects_per_ray (R k : α) (rays : List (Ray α)) :
+    (Geom.standard R k).distance rays = rays.map fun r =>
+      if Num.isZero (conicABC R k r).1 then -(conicABC R k r).2.2 / (conicABC R k r).2.1
+      else selectRootQuad (conicABC R k r).1 (conicABC R k r).2.1 (conicABC R k r).2.2 r.z r.N := by
+  simp only [Geom.distance]
+  apply List.map_congr_left
+  intro r _
+  rw [stdDistance_eq, selectRoot_eq]
+
+/-- **std_distance_per_ray_in_batch**: the value of the ray at any position of a batch is the value
+of that ray alone -/
+theorem std_distance_per_ray_in_batch (R k : α) (pre post : List (Ray α)) (r : Ray α) :
+    ((Geom.standard R k).distance (pre ++ r :: post))[pre.length]? = ((Geom.standard R k).distance [r]).head? := by
+  simp only [Geom.distance, List.map_append, List.map_cons, List.map_nil, List.head?_cons]
+  rw [List.getElem?_append_right (by simp)]
+  simp
+
+/-- **std_distance_mixed_batch**: a batch that mixes a ray with `a = 0` and a ray with `a ≠ 0`
+(in either order): the first gets the linear root, the second the quadratic one. -/
+theorem std_distance_mixed_batch (R k : α) (r0 r1 : Ray α)
+    (h0 : Num.isZero (conicABC R k r0).1 = true) (h1 : Num.isZero (conicABC R k r1).1 = false) :
+    (Geom.standard R k).distance [r0, r1] =
+      [-(conicABC R k r0).2.2 / (conicABC R k r0).2.1,
+       selectRootQuad (conicABC R k r1).1 (conicABC R k r1).2.1 (conicABC R k r1).2.2 r1.z r1.N] ∧
+    (Geom.standard R k).distance [r1, r0] =
+      [selectRootQuad (conicABC R k r1).1 (conicABC R k r1).2.1 (conicABC R k r1).2.2 r1.z r1.N,
+       -(conicABC R k r0).2.2 / (conicABC R k r0).2.1] := by
+  simp only [std_distance_selects_per_ray, List.map_cons, List.map_nil, h0, h1, if_true,
+    Bool.false_eq_true, if_false, and_self]
+
+/-- the hypotheses are satisfiable over ℝ: a paraboloid (`k = -1`), an axial ray (`a = 0`) and an
+oblique unit ray (`a = 9/25`) -/
+example : Num.isZero (conicABC (1:ℝ) (-1) ⟨0, 0, -1, 0, 0, 1, 1, 0⟩).1 = true ∧
+    Num.isZero (conicABC (1:ℝ) (-1) ⟨0, 0, -1, 3/5, 0, 4/5, 1, 0⟩).1 = false := by
+  constructor
+  · rw [NumReal.isZero_eq]; simp only [conicABC]; num_real; norm_num
+  · rw [← Bool.not_eq_true, NumReal.isZero_eq]; simp only [conicABC]; num_real; norm_num
+
+/-! ### F.b  the whole surface loop: order and grouping of the batch -/
+
+/-- **traceLens_per_ray**: with closed-form geometries the record of surface `j` is, ray by ray,
+the ray traced alone through the surfaces `0..j` – localisation, intersection, propagation,
+optical path, aperture clipping (`i := 0`), refraction/reflection and coating included, since all
+of these are inside `traceRay`. -/
+theorem traceLens_per_ray (w : α) (ss : List (RSurf α)) (rays : List (Ray α)) (h : AllClosed ss)
+    (j : Nat) (hj : j < ss.length) :
+    (traceLens w ss rays)[j]? = some (rays.map (rayThrough w (ss.take (j + 1)))) := by
+  induction ss generalizing rays j with
+  | nil => simp at hj
+  | cons s ss ih =>
+    have hs : closedForm s.geom = true := h s (by simp)
+    have hss : AllClosed ss := fun t ht => h t (by simp [ht])
+    cases j with
+    | zero =>
+      simp only [traceLens, traceSurf_eq_map s w _ hs, List.getElem?_cons_zero]
+      rfl
+    | succ j =>
+      have hj' : j < ss.length := by simpa using hj
+      simp only [traceLens, traceSurf_eq_map s w _ hs, List.getElem?_cons_succ, List.take_succ_cons]
+      rw [ih _ hss j hj', List.map_map]
+      rfl
+
+/-- **batch_gather**: any regrouping of the batch (reordering, sub-batch, duplication; `gather idx`)
+commutes with the whole surface loop: every per-surface record of the regrouped batch is the
+regrouped record of the original batch. -/
+theorem batch_gather (w : α) (ss : List (RSurf α)) (idx : List Nat) (rays : List (Ray α)) (h : AllClosed ss) :
+    traceLens w ss (gather idx rays) = (traceLens w ss rays).map (gather idx) := by
+  induction ss generalizing rays with
+  | nil => rfl
+  | cons s ss ih =>
+    have hs : closedForm s.geom = true := h s (by simp)
+    have hss : AllClosed ss := fun t ht => h t (by simp [ht])
+    simp only [traceLens, List.map_cons, traceSurf_eq_map s w _ hs, gather_map]
+    rw [ih _ hss]
+
+/-- **batch_concat**: rays of several field points traced in one call: the records are the
+concatenation, surface by surface, of the records of the separate calls. -/
+theorem batch_concat (w : α) (ss : List (RSurf α)) (a b : List (Ray α)) (h : AllClosed ss) :
+    traceLens w ss (a ++ b) = List.zipWith (· ++ ·) (traceLens w ss a) (traceLens w ss b) := by
+  induction ss generalizing a b with
+  | nil => rfl
+  | cons s ss ih =>
+    have hs : closedForm s.geom = true := h s (by simp)
+    have hss : AllClosed ss := fun t ht => h t (by simp [ht])
+    simp only [traceLens, traceSurf_append s w a b hs, List.zipWith_cons_cons]
+    rw [ih _ _ hss]
+
+/-- **batch_perm**: a permutation of the batch permutes every per-surface record -/
+theorem batch_perm (w : α) (ss : List (RSurf α)) (a b : List (Ray α)) (h : AllClosed ss) (hp : a.Perm b) :
+    List.Forall₂ List.Perm (traceLens w ss a) (traceLens w ss b) := by
+  induction ss generalizing a b with
+  | nil => exact List.Forall₂.nil
+  | cons s ss ih =>
+    have hs : closedForm s.geom = true := h s (by simp)
+    have hss : AllClosed ss := fun t ht => h t (by simp [ht])
+    simp only [traceLens, traceSurf_eq_map s w _ hs]
+    exact List.Forall₂.cons (hp.map _) (ih _ _ hss (hp.map _))
+
+/-- **group_trace_gather**: the same at the level of `SurfaceGroup.trace`: the rays returned for a
+regrouped batch are the regrouped returned rays, and the per-surface records left on the lens are
+the regrouped records. -/
+theorem group_trace_gather (L : Lens α) (w : α) (idx : List Nat) (rays : List (Ray α)) (recs : Recs α)
+    (h : AllClosed (L.real w)) :
+    (groupTraceR L w (gather idx rays) recs).1 = gather idx (groupTraceR L w rays recs).1 ∧
+    (groupTraceR L w (gather idx rays) recs).2 =
+      (traceLens w (L.real w) rays).map fun r => Rec.real (gather idx r) := by
+  simp only [groupTraceR, batch_gather w _ idx rays h, getLastD_map, groupWrite_zero, List.map_map,
+    true_and]
+  rfl
+
+/-- the regrouping is not vacuous: `gather [1, 0]` swaps two rays, `gather [1]` selects the second -/
+example (x y : α) : gather [1, 0] [x, y] = [y, x] ∧ gather [1] [x, y] = [y] := ⟨rfl, rfl⟩
+
+/-! ### F.d  arbitrary interleavings of queries and edits -/
+
+/-- **run_lens_eq_edits**: after an arbitrary history (tracing calls, queries, analyses and
+edits interleaved in any way, either variant) the lens is what the edits alone, in their order,
+make of it: the non-editing calls are invisible in the evolution of the prescription. -/
+theorem run_lens_eq_edits (env : Env α) (code : Bool) (ops : List (Op α)) (s : St α) :
+    (run env code s ops).lens = (edits ops).foldl (fun L f => f L) s.lens := by
+  induction ops generalizing s with
+  | nil => rfl
+  | cons op ops ih =>
+    have h2 := ih (step env code s op).1
+    simp only [run, List.foldl_cons] at h2 ⊢
+    rw [h2]
+    cases op <;> rfl
+
+/-- **result_independent_of_interleaving_spec**: two arbitrary histories with the same edits in the
+same order (queries, traces and analyses interleaved differently, in different numbers), started
+from states with the same lens and caller arrays: any call afterwards returns the same result
+(specification variant). -/
+theorem result_independent_of_interleaving_spec (env : Env α) (s₁ s₂ : St α) (h₁ h₂ : List (Op α)) (op : Op α)
+    (hl : s₁.lens = s₂.lens) (hh : s₁.heap = s₂.heap) (he : edits h₁ = edits h₂) :
+    (step env false (run env false s₁ h₁) op).2 = (step env false (run env false s₂ h₂) op).2 :=
+  (result_independent_of_history env false _ _ op
+    (by rw [run_lens_eq_edits, run_lens_eq_edits, he, hl])
+    (by rw [caller_arrays_unchanged_spec_run, caller_arrays_unchanged_spec_run, hh])).1
+
+/-- the hypothesis is satisfiable by histories that differ: a query before the edit, two after -/
+example (f : Lens α → Lens α) (q : Query) :
+    edits [Op.call (.query q), .edit f] = edits [Op.edit f, .call (.query q), .call (.query q)] ∧
+    [Op.call (.query q), .edit f] ≠ [Op.edit f, .call (.query q), .call (.query q)] := ⟨rfl, by simp⟩
+
+/-- an op that hands no caller-owned ndarray as `Px` / `Py` whatever the lens is at that moment -/
+def OpNoArrAll (op : Op α) : Prop := ∀ L, OpNoArr L op
+
+/-- **caller_arrays_unchanged_code_noarr_run** (the code as it stands, every carrier): along an
+arbitrary interleaving of edits with calls that pass no caller-owned ndarray as `Px` / `Py`, no
+caller-owned array is written. -/
+theorem caller_arrays_unchanged_code_noarr_run (env : Env α) (ops : List (Op α)) (s : St α)
+    (h : ∀ op ∈ ops, OpNoArrAll op) : (run env true s ops).heap = s.heap := by
+  induction ops generalizing s with
+  | nil => rfl
+  | cons op ops ih =>
+    have h2 := ih (step env true s op).1 (fun o ho => h o (by simp [ho]))
+    simp only [run, List.foldl_cons] at h2 ⊢
+    rw [h2, caller_arrays_unchanged_code_noarr env s op (h op (by simp) s.lens)]
+
+/-- **result_independent_of_interleaving_code_noarr** (the code as it stands, every carrier, bit
+for bit over `Float`): the same as `result_independent_of_interleaving_spec` for the tree, for
+histories of edits and calls without ndarray `Px` / `Py`. -/
+theorem result_independent_of_interleaving_code_noarr (env : Env α) (s₁ s₂ : St α) (h₁ h₂ : List (Op α))
+    (op : Op α) (hl : s₁.lens = s₂.lens) (hh : s₁.heap = s₂.heap) (he : edits h₁ = edits h₂)
+    (n₁ : ∀ o ∈ h₁, OpNoArrAll o) (n₂ : ∀ o ∈ h₂, OpNoArrAll o) :
+    (step env true (run env true s₁ h₁) op).2 = (step env true (run env true s₂ h₂) op).2 :=
+  (result_independent_of_history env true _ _ op
+    (by rw [run_lens_eq_edits, run_lens_eq_edits, he, hl])
+    (by rw [caller_arrays_unchanged_code_noarr_run env h₁ s₁ n₁,
+      caller_arrays_unchanged_code_noarr_run env h₂ s₂ n₂, hh])).1
+
+/-- the hypothesis is satisfiable: `Optic.trace`, a query, an edit -/
+example (Hx Hy w : α) (pts : List (α × α)) (q : Query) (f : Lens α → Lens α) :
+    ∀ o ∈ [Op.call (.trace Hx Hy w pts), .call (.query q), .edit f], OpNoArrAll o := by
+  intro o ho L
+  simp only [List.mem_cons, List.not_mem_nil, or_false] at ho
+  rcases ho with rfl | rfl | rfl
+  · show noArrPupil _ = true; rfl
+  · show noArrPupil _ = true; rfl
+  · trivial
+
+/-! ### F.c  Newton–Raphson surfaces: what exactly is true of the shared loop
+
+`nrCount` is the number of sweeps the shared loop executes.  Proved here (over ℝ, no NaN):
+the count of a batch is at least the count of each of its blocks and of each of its rays
+(`nrCount_mono_left/right`, `nr_ray_in_batch_steps`); if, at the sweep where a block `a` meets the
+test, the rest of the batch meets it as well, the batch does to `a` exactly what `a` gets alone
+(`nr_dominated_batch_agrees`), so two batches that share their slowest rays agree on them
+(`nr_batches_sharing_slowest_agree`); full independence is false (`nr_not_batch_independent`);
+every added sweep in which the ray still meets its own test moves it along its ray by less than
+`tol/|N|` (`nr_extra_sweeps_displacement_partial`). -/
+
+/-- the loop is `nrCount` sweeps of the per-ray iteration, the same number for every ray -/
+theorem nrLoop_count (g : Geom α) (rays : List (Ray α)) (tol : α) (n : Nat) (pts : List (α × α × α)) :
+    nrLoop g rays tol n pts = nrIter g rays (nrCount g rays tol n pts) pts ∧ nrCount g rays tol n pts ≤ n :=
+  ⟨nrLoop_eq_count g rays tol n pts, nrCount_le g rays tol n pts⟩
+
+/-- **nrCount_mono_left**: the first block of a batch gets at least as many sweeps as alone -/
+theorem nrCount_mono_left (g : Geom ℝ) (a b : List (Ray ℝ)) (tol : ℝ) (n : Nat)
+    (pa pb : List (ℝ × ℝ × ℝ)) (hl : pa.length = a.length) (hne : a ≠ []) :
+    nrCount g a tol n pa ≤ nrCount g (a ++ b) tol n (pa ++ pb) := by
+  induction n generalizing pa pb with
+  | zero => exact Nat.le_refl 0
+  | succ n ih =>
+    simp only [nrCount]
+    by_cases hB : Num.lt (nrSweep g (a ++ b) (pa ++ pb)).2 tol = true
+    · have hA := sweep_test_mono g a b pa pb tol hl hne hB
+      simp only [hA, hB, if_true]
+      exact Nat.le_refl 1
+    · simp only [hB, if_false, nrSweep_pts_append g a b pa pb hl]
+      by_cases hA : Num.lt (nrSweep g a pa).2 tol = true
+      · simp only [hA, if_true]; exact Nat.succ_le_succ (Nat.zero_le _)
+      · simp only [hA, if_false]
+        exact Nat.succ_le_succ (ih _ _ (nrSweep_pts_length g a pa hl))
+
+/-- **nrCount_mono_right**: … and so does the second block -/
+theorem nrCount_mono_right (g : Geom ℝ) (a b : List (Ray ℝ)) (tol : ℝ) (n : Nat)
+    (pa pb : List (ℝ × ℝ × ℝ)) (hl : pa.length = a.length) (hlb : pb.length = b.length) (hne : b ≠ []) :
+    nrCount g b tol n pb ≤ nrCount g (a ++ b) tol n (pa ++ pb) := by
+  induction n generalizing pa pb with
+  | zero => exact Nat.le_refl 0
+  | succ n ih =>
+    simp only [nrCount]
+    by_cases hB : Num.lt (nrSweep g (a ++ b) (pa ++ pb)).2 tol = true
+    · have hA := sweep_test_mono_right g a b pa pb tol hl hlb hne hB
+      simp only [hA, hB, if_true]
+      exact Nat.le_refl 1
+    · simp only [hB, if_false, nrSweep_pts_append g a b pa pb hl]
+      by_cases hA : Num.lt (nrSweep g b pb).2 tol = true
+      · simp only [hA, if_true]; exact Nat.succ_le_succ (Nat.zero_le _)
+      · simp only [hA, if_false]
+        exact Nat.succ_le_succ (ih _ _ (nrSweep_pts_length g a pa hl) (nrSweep_pts_length g b pb hlb))
+
+/-- **nr_ray_in_batch_steps**: a ray at any position of a batch ends at the point of `k` steps of
+its own Newton iteration (`nrPt`), alone at the point of `k'` steps from the same start, and
+`k' ≤ k ≤ max_iter`: every ray gets at least as many steps in a batch as alone. -/
+theorem nr_ray_in_batch_steps (g : Geom ℝ) (pre post : List (Ray ℝ)) (r : Ray ℝ) (tol : ℝ) (n : Nat)
+    (ppre ppost : List (ℝ × ℝ × ℝ)) (p : ℝ × ℝ × ℝ) (hl : ppre.length = pre.length)
+    (hlp : ppost.length = post.length) :
+    ∃ k k', k' ≤ k ∧ k ≤ n ∧
+      (nrLoop g (pre ++ r :: post) tol n (ppre ++ p :: ppost))[pre.length]? = some (nrPt g r k p) ∧
+      nrLoop g [r] tol n [p] = [nrPt g r k' p] := by
+  refine ⟨nrCount g (pre ++ r :: post) tol n (ppre ++ p :: ppost), nrCount g [r] tol n [p], ?_,
+    nrCount_le _ _ _ _ _, ?_, ?_⟩
+  · have h1 := nrCount_mono_left g [r] post tol n [p] ppost rfl (by simp)
+    have h2 := nrCount_mono_right g pre (r :: post) tol n ppre (p :: ppost) hl (by simp [hlp]) (by simp)
+    exact Nat.le_trans h1 h2
+  · rw [nrLoop_eq_count, nrIter_append g pre (r :: post) _ ppre (p :: ppost) hl,
+      ← nrIter_length g pre _ ppre hl, List.getElem?_append_right (Nat.le_refl _), Nat.sub_self]
+    have := nrIter_append g [r] post (nrCount g (pre ++ r :: post) tol n (ppre ++ p :: ppost)) [p] ppost rfl
+    simp only [List.singleton_append] at this
+    rw [this, nrIter_single]
+    rfl
+  · rw [nrLoop_eq_count, nrIter_single]
+
+/-- the hypotheses are satisfiable -/
+example : ([(0, 0, 0)] : List (ℝ × ℝ × ℝ)).length = ([⟨0, 0, 0, 0, 0, 1, 1, 0⟩] : List (Ray ℝ)).length := rfl
+
+/-- **nr_dominated_batch_agrees**: if at every sweep at which the block `a` (on its own
+trajectory) meets the stopping test every ray of the rest `b` has `|dz| < tol` as well – `a`
+contains the slowest rays –, then the shared loop runs exactly as long as for `a` alone and the
+rays of `a` end exactly where they end alone. -/
+theorem nr_dominated_batch_agrees (g : Geom ℝ) (a b : List (Ray ℝ)) (tol : ℝ) (n : Nat)
+    (pa pb : List (ℝ × ℝ × ℝ)) (hl : pa.length = a.length) (hne : a ≠ [])
+    (hd : ∀ i < n, Num.lt (nrSweep g a (nrIter g a i pa)).2 tol = true →
+      ∀ x ∈ dzs g b (nrIter g b i pb), x < tol) :
+    nrCount g (a ++ b) tol n (pa ++ pb) = nrCount g a tol n pa ∧
+    (nrLoop g (a ++ b) tol n (pa ++ pb)).take a.length = nrLoop g a tol n pa := by
+  have hc : nrCount g (a ++ b) tol n (pa ++ pb) = nrCount g a tol n pa := by
+    induction n generalizing pa pb with
+    | zero => rfl
+    | succ n ih =>
+      simp only [nrCount]
+      by_cases hA : Num.lt (nrSweep g a pa).2 tol = true
+      · have hB : Num.lt (nrSweep g (a ++ b) (pa ++ pb)).2 tol = true :=
+          (sweep_test_append g a b pa pb tol hl hne).mpr ⟨hA, hd 0 (Nat.succ_pos n) hA⟩
+        simp only [hA, hB, if_true]
+      · have hB : ¬ Num.lt (nrSweep g (a ++ b) (pa ++ pb)).2 tol = true :=
+          fun h => hA ((sweep_test_append g a b pa pb tol hl hne).mp h).1
+        simp only [hA, hB, if_false, nrSweep_pts_append g a b pa pb hl]
+        rw [ih _ _ (nrSweep_pts_length g a pa hl) (fun i hi => hd (i + 1) (Nat.succ_lt_succ hi))]
+  refine ⟨hc, ?_⟩
+  rw [nrLoop_eq_count, nrLoop_eq_count, hc, nrIter_append g a b _ pa pb hl,
+    ← nrIter_length g a (nrCount g a tol n pa) pa hl, List.take_left']
+  rfl
+
+/-- **nr_batches_sharing_slowest_agree**: two batches `a ++ b` and `a ++ c` that share their slowest
+rays `a` give the rays of `a` the same points. -/
+theorem nr_batches_sharing_slowest_agree (g : Geom ℝ) (a b c : List (Ray ℝ)) (tol : ℝ) (n : Nat)
+    (pa pb pc : List (ℝ × ℝ × ℝ)) (hl : pa.length = a.length) (hne : a ≠ [])
+    (hb : ∀ i < n, Num.lt (nrSweep g a (nrIter g a i pa)).2 tol = true →
+      ∀ x ∈ dzs g b (nrIter g b i pb), x < tol)
+    (hc : ∀ i < n, Num.lt (nrSweep g a (nrIter g a i pa)).2 tol = true →
+      ∀ x ∈ dzs g c (nrIter g c i pc), x < tol) :
+    (nrLoop g (a ++ b) tol n (pa ++ pb)).take a.length = (nrLoop g (a ++ c) tol n (pa ++ pc)).take a.length := by
+  rw [(nr_dominated_batch_agrees g a b tol n pa pb hl hne hb).2,
+    (nr_dominated_batch_agrees g a c tol n pa pc hl hne hc).2]
+
+/-- the domination hypothesis is satisfiable: an empty rest (and, less trivially, the witness of
+`nr_not_batch_independent` read the other way round) -/
+example (g : Geom ℝ) (a : List (Ray ℝ)) (tol : ℝ) (n : Nat) (pa : List (ℝ × ℝ × ℝ)) :
+    ∀ i < n, Num.lt (nrSweep g a (nrIter g a i pa)).2 tol = true →
+      ∀ x ∈ dzs g ([] : List (Ray ℝ)) (nrIter g [] i []), x < tol := by
+  intro i _ _ x hx
+  simp [dzs] at hx
+
+/-! #### full independence is false -/
+
+/-- the sag of the even asphere `R = 1, k = -1`, no polynomial terms: the paraboloid `r²/2` -/
+theorem parab_sag (t : ℝ) (m : Nat) (x y : ℝ) :
+    (Geom.evenAsphere (1:ℝ) (-1) t m []).nrSag x y = (x * x + y * y) / 2 := by
+  simp only [Geom.nrSag, asphSag, conicSag, List.zipIdx_nil, List.foldl_nil]
+  num_real
+  have e : (1:ℝ) + -1 = 0 := by norm_num
+  rw [e, zero_mul, zero_div, sub_zero, Real.sqrt_one]
+  norm_num
+
+noncomputable def witG : Geom ℝ := .evenAsphere 1 (-1) 1 2 []
+/-- oblique unit ray, `|dz| = 1/2 < tol = 1` at the first sweep -/
+noncomputable def witA : Ray ℝ := ⟨0, 0, 0, 3/5, 0, 4/5, 1, 0⟩
+/-- axial ray starting 5 above the vertex: `|dz| = 5 ≥ tol` at the first sweep, `0` at the second -/
+noncomputable def witB : Ray ℝ := ⟨0, 0, 0, 0, 0, 1, 1, 0⟩
+
+/-- **nr_not_batch_independent** (negation witness; finding: the clause "the result for one ray
+does not depend on which other rays are traced in the same call" holds for Newton–Raphson surfaces
+only up to the tolerance).  Paraboloid `z = r²/2`, `tol = 1`, `max_iter = 2`: the oblique ray alone
+stops after one sweep at `x = 11/8`; in a batch with an axial ray that needs two sweeps it is
+moved on to `x = 875/512`. -/
+theorem nr_not_batch_independent :
+    ¬ ∀ (g : Geom ℝ) (a b : List (Ray ℝ)) (tol : ℝ) (n : Nat) (pa pb : List (ℝ × ℝ × ℝ)),
+      pa.length = a.length → pb.length = b.length →
+      (nrLoop g (a ++ b) tol n (pa ++ pb)).take a.length = nrLoop g a tol n pa := by
+  intro h
+  have sA1 : nrStep witG witA (1, 0, 0) = ((11/8, 0, 1/2), 1/2) := by
+    simp only [nrStep, witG, witA, parab_sag]; num_real; norm_num
+  have sA2 : nrStep witG witA (11/8, 0, 1/2) = ((875/512, 0, 121/128), 57/128) := by
+    simp only [nrStep, witG, witA, parab_sag]; num_real; norm_num
+  have sB1 : nrStep witG witB (0, 0, 5) = ((0, 0, 0), 5) := by
+    simp only [nrStep, witG, witB, parab_sag]; num_real; norm_num
+  have sB2 : nrStep witG witB (0, 0, 0) = ((0, 0, 0), 0) := by
+    simp only [nrStep, witG, witB, parab_sag]; num_real; norm_num
+  have hA1 : Num.lt (nrSweep witG [witA] [(1, 0, 0)]).2 1 = true := by
+    rw [NumReal.lt_eq, nrSweep_max, npMax_lt _ _ (by simp [dzs])]
+    intro x hx
+    simp only [dzs, List.zip_cons_cons, List.zip_nil_right, List.map_cons, List.map_nil, sA1,
+      List.mem_cons, List.not_mem_nil, or_false] at hx
+    rw [hx]; norm_num
+  have eA : nrLoop witG [witA] 1 2 [(1, 0, 0)] = [(11/8, 0, 1/2)] := by
+    show nrLoop witG [witA] 1 (1 + 1) [(1, 0, 0)] = _
+    simp only [nrLoop, hA1, if_true, nrSweep_pts, List.zip_cons_cons, List.zip_nil_right, List.map_cons,
+      List.map_nil, sA1]
+  have hB1 : ¬ Num.lt (nrSweep witG [witA, witB] [(1, 0, 0), (0, 0, 5)]).2 1 = true := by
+    rw [NumReal.lt_eq, nrSweep_max, npMax_lt _ _ (by simp [dzs])]
+    intro hx
+    have := hx 5 (by simp [dzs, sB1])
+    norm_num at this
+  have E1 : (nrSweep witG [witA, witB] [(1, 0, 0), (0, 0, 5)]).1 = [(11/8, 0, 1/2), (0, 0, 0)] := by
+    simp only [nrSweep_pts, List.zip_cons_cons, List.zip_nil_right, List.map_cons, List.map_nil, sA1, sB1]
+  have hB2 : Num.lt (nrSweep witG [witA, witB] [(11/8, 0, 1/2), (0, 0, 0)]).2 1 = true := by
+    rw [NumReal.lt_eq, nrSweep_max, npMax_lt _ _ (by simp [dzs])]
+    intro x hx
+    simp only [dzs, List.zip_cons_cons, List.zip_nil_right, List.map_cons, List.map_nil, sA2, sB2,
+      List.mem_cons, List.not_mem_nil, or_false] at hx
+    rcases hx with rfl | rfl <;> norm_num
+  have E2 : (nrSweep witG [witA, witB] [(11/8, 0, 1/2), (0, 0, 0)]).1 = [(875/512, 0, 121/128), (0, 0, 0)] := by
+    simp only [nrSweep_pts, List.zip_cons_cons, List.zip_nil_right, List.map_cons, List.map_nil, sA2, sB2]
+  have eB : nrLoop witG [witA, witB] 1 2 [(1, 0, 0), (0, 0, 5)] = [(875/512, 0, 121/128), (0, 0, 0)] := by
+    show nrLoop witG [witA, witB] 1 (1 + 1) [(1, 0, 0), (0, 0, 5)] = _
+    simp only [nrLoop, hB1, Bool.false_eq_true, if_false, E1, hB2, if_true, E2]
+  have := h witG [witA] [witB] 1 2 [(1, 0, 0)] [(0, 0, 5)] rfl rfl
+  simp only [List.cons_append, List.nil_append] at this
+  rw [eA, eB] at this
+  simp at this
+  norm_num at this
+
+/-! #### how far the added sweeps can move a ray -/
+
+/-- **nr_extra_sweeps_displacement_partial**.  Full statement (numerical only): the points a ray
+gets in a batch and alone differ by at most `tol / |N|`.  Proved part: `m` further sweeps move the
+point along its own ray, `p ↦ p + t·(L, M, N)`, with `|t| ≤ m · tol / |N|` (`|t|` is the Euclidean
+displacement for a unit direction) *provided* the ray meets its own test `|dz| < tol` in each of
+them.  Missing: that a ray which has met the test keeps meeting it and that the `|dz|` contract
+(convergence of the Newton iteration), which would replace `m · tol` by a multiple of `tol`
+independent of `m`. -/
+theorem nr_extra_sweeps_displacement_partial (g : Geom ℝ) (r : Ray ℝ) (tol : ℝ) (hN : r.N ≠ 0) (m : Nat)
+    (p : ℝ × ℝ × ℝ) (hz : ∀ j < m, (nrStep g r (nrPt g r j p)).2 < tol) :
+    ∃ t : ℝ, nrPt g r m p = (p.1 + t * r.L, p.2.1 + t * r.M, p.2.2 + t * r.N) ∧
+      |t| ≤ m * (tol / |r.N|) := by
+  induction m generalizing p with
+  | zero => exact ⟨0, by simp [nrPt], by simp⟩
+  | succ m ih =>
+    obtain ⟨t', e', b'⟩ := ih (nrStep g r p).1 (fun j hj => hz (j + 1) (Nat.succ_lt_succ hj))
+    have h0 : (nrStep g r p).2 < tol := hz 0 (Nat.succ_pos m)
+    have e1 : (nrStep g r p).1 = (p.1 + -((p.2.2 - g.nrSag p.1 p.2.1) / r.N) * r.L,
+        p.2.1 + -((p.2.2 - g.nrSag p.1 p.2.1) / r.N) * r.M,
+        p.2.2 + -((p.2.2 - g.nrSag p.1 p.2.1) / r.N) * r.N) := by
+      simp only [nrStep]
+      num_real
+      simp only [Prod.mk.injEq]
+      exact ⟨by ring, by ring, by ring⟩
+    have h0' : |p.2.2 - g.nrSag p.1 p.2.1| < tol := by
+      simp only [nrStep] at h0
+      num_real
+      exact h0
+    refine ⟨-((p.2.2 - g.nrSag p.1 p.2.1) / r.N) + t', ?_, ?_⟩
+    · show nrPt g r m (nrStep g r p).1 = _
+      rw [e', e1]
+      simp only [Prod.mk.injEq]
+      exact ⟨by ring, by ring, by ring⟩
+    · have hNp : 0 < |r.N| := abs_pos.mpr hN
+      have ht0 : |-((p.2.2 - g.nrSag p.1 p.2.1) / r.N)| ≤ tol / |r.N| := by
+        rw [abs_neg, abs_div]
+        exact div_le_div_of_nonneg_right (le_of_lt h0') (le_of_lt hNp)
+      calc |-((p.2.2 - g.nrSag p.1 p.2.1) / r.N) + t'|
+          ≤ |-((p.2.2 - g.nrSag p.1 p.2.1) / r.N)| + |t'| := abs_add_le _ _
+        _ ≤ tol / |r.N| + m * (tol / |r.N|) := add_le_add ht0 b'
+        _ = ((m + 1 : ℕ) : ℝ) * (tol / |r.N|) := by push_cast; ring
+
+/-- the hypotheses are satisfiable: the oblique ray of the witness above, one further sweep -/
+example : witA.N ≠ 0 ∧ ∀ j < 1, (nrStep witG witA (nrPt witG witA j (11/8, 0, 1/2))).2 < 1 := by
+  refine ⟨by simp only [witA]; norm_num, ?_⟩
+  intro j hj
+  have : j = 0 := by omega
+  subst this
+  simp only [nrPt, nrStep, witG, witA, parab_sag]
+  num_real
+  norm_num
+
+/-! #### order of the batch on Newton–Raphson surfaces -/
+
+/-- the stopping test of one sweep does not depend on the order of the two blocks -/
+theorem sweep_test_swap (g : Geom ℝ) (a b : List (Ray ℝ)) (pa pb : List (ℝ × ℝ × ℝ)) (tol : ℝ)
+    (hl : pa.length = a.length) (hlb : pb.length = b.length) :
+    (Num.lt (nrSweep g (a ++ b) (pa ++ pb)).2 tol = true) ↔ (Num.lt (nrSweep g (b ++ a) (pb ++ pa)).2 tol = true) := by
+  by_cases ha : a = []
+  · subst ha
+    have : pa = [] := List.length_eq_zero_iff.mp hl
+    subst this
+    simp only [List.nil_append, List.append_nil]
+  by_cases hb : b = []
+  · subst hb
+    have : pb = [] := List.length_eq_zero_iff.mp hlb
+    subst this
+    simp only [List.nil_append, List.append_nil]
+  rw [sweep_test_append g a b pa pb tol hl ha, sweep_test_append g b a pb pa tol hlb hb,
+    NumReal.lt_eq, NumReal.lt_eq, nrSweep_max, nrSweep_max]
+  have hA : dzs g a pa ≠ [] := by
+    cases a with
+    | nil => exact absurd rfl ha
+    | cons r a =>
+      cases pa with
+      | nil => simp at hl
+      | cons p pa => simp [dzs]
+  have hB : dzs g b pb ≠ [] := by
+    cases b with
+    | nil => exact absurd rfl hb
+    | cons r b =>
+      cases pb with
+      | nil => simp at hlb
+      | cons p pb => simp [dzs]
+  rw [npMax_lt _ _ hA, npMax_lt _ _ hB]
+  exact And.comm
+
+/-- **nr_block_position_irrelevant**: on a Newton–Raphson surface the shared loop runs equally
+long whichever block of the batch comes first, and a block of rays gets the same points whether
+it is traced before or after the others (order of field points / of the rays in one call). -/
+theorem nr_block_position_irrelevant (g : Geom ℝ) (a b : List (Ray ℝ)) (tol : ℝ) (n : Nat)
+    (pa pb : List (ℝ × ℝ × ℝ)) (hl : pa.length = a.length) (hlb : pb.length = b.length) :
+    nrCount g (a ++ b) tol n (pa ++ pb) = nrCount g (b ++ a) tol n (pb ++ pa) ∧
+    (nrLoop g (a ++ b) tol n (pa ++ pb)).take a.length = (nrLoop g (b ++ a) tol n (pb ++ pa)).drop b.length := by
+  have hc : nrCount g (a ++ b) tol n (pa ++ pb) = nrCount g (b ++ a) tol n (pb ++ pa) := by
+    induction n generalizing pa pb with
+    | zero => rfl
+    | succ n ih =>
+      simp only [nrCount]
+      by_cases hT : Num.lt (nrSweep g (a ++ b) (pa ++ pb)).2 tol = true
+      · have hT' := (sweep_test_swap g a b pa pb tol hl hlb).mp hT
+        simp only [hT, hT', if_true]
+      · have hT' : ¬ Num.lt (nrSweep g (b ++ a) (pb ++ pa)).2 tol = true :=
+          fun h => hT ((sweep_test_swap g a b pa pb tol hl hlb).mpr h)
+        simp only [hT, hT', if_false, nrSweep_pts_append g a b pa pb hl, nrSweep_pts_append g b a pb pa hlb]
+        rw [ih _ _ (nrSweep_pts_length g a pa hl) (nrSweep_pts_length g b pb hlb)]
+  refine ⟨hc, ?_⟩
+  rw [nrLoop_eq_count, nrLoop_eq_count, hc, nrIter_append g a b _ pa pb hl, nrIter_append g b a _ pb pa hlb,
+    ← nrIter_length g a (nrCount g (b ++ a) tol n (pb ++ pa)) pa hl, List.take_left',
+    ← nrIter_length g b (nrCount g (b ++ a) tol n (pb ++ pa)) pb hlb, List.drop_left']
+  · rfl
+  · rfl
+
+/-- the hypotheses are satisfiable: the two rays of the witness above -/
+example : ([(1, 0, 0)] : List (ℝ × ℝ × ℝ)).length = [witA].length ∧
+    ([(0, 0, 5)] : List (ℝ × ℝ × ℝ)).length = [witB].length := ⟨rfl, rfl⟩
 
 end C13
